@@ -70,3 +70,19 @@ Theorem c06_unroll_map :
 Proof. exact Unroll.c06_unroll_map. Qed.
 Print Assumptions c06_unroll_map.
 
+
+(* ---- the alias path S.<i> of the i-th element denotes the i-th element (DecNat.v) ---- *)
+From Coq Require Import List String ZArith NArith Bool. From Bexpr Require Import Base Strconv Ast Univ Eval DecNat. Import ListNotations.
+
+Theorem dec_nat_round_trip :
+  forall n : nat, Z.of_nat n < 2 ^ 63 -> parse_int (dec_nat n) 0 64 = POk (Z.of_nat n).
+Proof. exact DecNat.dec_nat_round_trip. Qed.
+Print Assumptions dec_nat_round_trip.
+
+Theorem index_part_denotes_element :
+  forall (cfg : config) (t : gtype) (nl : bool) (l : list gval) (i : nat) (x : gval),
+  kind_of_type t = KSlice ->
+  Z.of_nat i < 2 ^ 63 -> nth_error l i = Some x -> get_step cfg (dec_nat i) (Some (t, VSlice nl l)) = Ok (Some (elem_type t, x)).
+Proof. exact DecNat.index_part_denotes_element. Qed.
+Print Assumptions index_part_denotes_element.
+
